@@ -151,3 +151,298 @@ Qed.
 Lemma ide_never_stale : forall x h x',
   ide_reach x -> signature hash_de x = Some (h, x') -> hash_de (content x) = Some h.
 Proof. intros x h x' Hr Hs. apply ide_reach_ok in Hr. apply (signature_correct hash_de x h x' Hr Hs). Qed.
+
+(* ================================================================== i_ga *)
+Definition iga_op_ok (P : iga -> Prop) (o : iga_op) : Prop :=
+  match o with GAssign y => P y | GIterWrite _ _ => False | _ => True end.
+
+Lemma iga_loop_count : forall cands v n v' n',
+  iga_mutation_loop v cands n = Some (v', n') -> (n <= n')%nat /\ (n' = n -> v' = v).
+Proof.
+  induction cands as [|[c g] r IH]; intros v n v' n' H; cbn [iga_mutation_loop] in H.
+  - inversion H. subst. split; [lia|reflexivity].
+  - destruct (nth_error v c) as [old|]; [|discriminate].
+    destruct (negb (Z.eqb g old)).
+    + destruct (set_nth v c g) as [v1|]; [|discriminate].
+      apply IH in H. destruct H as [Hle _]. split; [lia|intro; lia].
+    + apply IH in H. exact H.
+Qed.
+
+Lemma keep_same : forall C (hashf : C -> option hash) (x : cached C),
+  cache_ok hashf x -> cache_ok hashf (keep x (content x)).
+Proof. intros C hashf x H. apply cache_ok_keep_same; [exact H|reflexivity]. Qed.
+
+Lemma iga_mutation_preserves : forall x cands y n,
+  cache_ok hash_ga x -> iga_mutation x cands = Some (y, n) -> cache_ok hash_ga y.
+Proof.
+  intros x cands y n Hx. unfold iga_mutation.
+  destruct (iga_mutation_loop (content x) cands 0) as [[v' k]|] eqn:E; [|discriminate].
+  destruct (Nat.eqb k 0) eqn:Ek.
+  - apply Nat.eqb_eq in Ek. subst k. apply iga_loop_count in E. destruct E as [_ E].
+    rewrite (E eq_refl). intro H. inversion H. apply keep_same. exact Hx.
+  - destruct (recompute hash_ga v') as [z|] eqn:Er; [|discriminate].
+    intro H. inversion H. subst. apply (cache_ok_recompute hash_ga) in Er. tauto.
+Qed.
+
+Lemma iga_step_preserves : forall x o y,
+  cache_ok hash_ga x -> iga_op_ok (cache_ok hash_ga) o -> iga_step x o = Some y -> cache_ok hash_ga y.
+Proof.
+  intros x o y Hx Hop Hs. destruct o; cbn [iga_step iga_op_ok] in *.
+  - apply option_map_some in Hs. destruct Hs as [[h x'] [Hs ->]].
+    apply (signature_correct hash_ga) in Hs; [|exact Hx]. cbn. tauto.
+  - apply option_map_some in Hs. destruct Hs as [v' [_ ->]]. apply cache_ok_clear.
+  - apply option_map_some in Hs. destruct Hs as [[z n] [Hs ->]]. cbn.
+    apply (iga_mutation_preserves x cands z n Hx Hs).
+  - assert (Hc : forall a b, iga_crossover a b cut1 cut2 = Some y -> cache_ok hash_ga y).
+    { intros a b. unfold iga_crossover. destruct (_ && _); [|discriminate].
+      intro Hr. apply (cache_ok_recompute hash_ga) in Hr. tauto. }
+    destruct self_is_lhs; eapply Hc; exact Hs.
+  - destruct parsed; inversion Hs; subst; [apply cache_ok_clear|exact Hx].
+  - inversion Hs. subst. exact Hop.
+  - contradiction.
+Qed.
+
+Definition iga_plain (o : iga_op) : Prop :=
+  match o with GAssign _ | GIterWrite _ _ => False | _ => True end.
+Inductive iga_reach : iga -> Prop :=
+| gr_init : forall v, iga_reach (clear v)
+| gr_step : forall x o y, iga_reach x -> iga_plain o -> iga_step x o = Some y -> iga_reach y.
+
+Lemma iga_reach_ok : forall x, iga_reach x -> cache_ok hash_ga x.
+Proof.
+  induction 1 as [v|x o y Hr IH Hp Hs]; [apply cache_ok_clear|].
+  apply (iga_step_preserves x o y IH); [|exact Hs]. destruct o; cbn in *; try contradiction; exact I.
+Qed.
+
+Lemma iga_never_stale : forall x h x',
+  iga_reach x -> signature hash_ga x = Some (h, x') -> hash_ga (content x) = Some h.
+Proof. intros x h x' Hr Hs. apply iga_reach_ok in Hr. apply (signature_correct hash_ga x h x' Hr Hs). Qed.
+
+(* ================================================================= i_mep *)
+(* [MCse g']: i_mep::cse() copies the individual together with its cached
+   signature and rewires arguments; that this keeps the packed stream is the
+   named hypothesis H_cse of the step (checked by the correspondence run) *)
+Definition mep_op_ok (P : mep -> Prop) (x : mep) (o : mep_op) : Prop :=
+  match o with
+  | MAssign y => P y
+  | MIterWrite _ _ => False
+  | MCse g' => hash_mep g' = hash_mep (content x)
+  | _ => True
+  end.
+
+Lemma mutation_loop_count : forall pc cands g n g' n',
+  mutation_loop pc g cands n = Some (g', n') -> (n <= n')%nat /\ (n' = n -> g' = g).
+Proof.
+  induction cands as [|[l ge] r IH]; intros g n g' n' H; cbn [mutation_loop] in H.
+  - inversion H. subst. split; [lia|reflexivity].
+  - destruct (gene_at g l) as [old|]; [|discriminate].
+    destruct (negb (gene_eqb pc old ge)).
+    + apply IH in H. destruct H as [Hle _]. split; [lia|intro; lia].
+    + apply IH in H. exact H.
+Qed.
+
+Lemma mep_mutation_preserves : forall pc x cands y n,
+  cache_ok hash_mep x -> mep_mutation pc x cands = Some (y, n) ->
+  cache_ok hash_mep y /\ (n = 0%nat -> content y = content x).
+Proof.
+  intros pc x cands y n Hx. unfold mep_mutation.
+  destruct (mutation_loop pc (content x) cands 0) as [[g' k]|] eqn:E; [|discriminate].
+  intro H. inversion H. subst. apply mutation_loop_count in E. destruct E as [_ E].
+  destruct (Nat.eqb n 0) eqn:En.
+  - apply Nat.eqb_eq in En. subst n. rewrite (E eq_refl). split; [apply keep_same; exact Hx|reflexivity].
+  - split; [apply cache_ok_clear|]. intro Hn. subst n. discriminate.
+Qed.
+
+Lemma mep_crossover_clear : forall a b bb ls y, mep_crossover a b bb ls = Some y -> cache y = hzero.
+Proof.
+  intros a b bb ls y. unfold mep_crossover. destruct (copy_cells _ _ ls); [|discriminate].
+  intro H. inversion H. reflexivity.
+Qed.
+
+Lemma mep_step_preserves : forall pc x o y,
+  cache_ok hash_mep x -> mep_op_ok (cache_ok hash_mep) x o -> mep_step pc x o = Some y -> cache_ok hash_mep y.
+Proof.
+  intros pc x o y Hx Hop Hs. destruct o; cbn [mep_step mep_op_ok] in *.
+  - apply option_map_some in Hs. destruct Hs as [[h x'] [Hs ->]].
+    apply (signature_correct hash_mep) in Hs; [|exact Hx]. cbn. tauto.
+  - destruct (negb _); inversion Hs; subst; [apply cache_ok_clear|exact Hx].
+  - apply option_map_some in Hs. destruct Hs as [g' [_ ->]]. apply cache_ok_clear.
+  - destruct (_ && _); [|discriminate]. inversion Hs. apply cache_ok_clear.
+  - apply option_map_some in Hs. destruct Hs as [[z n] [Hs ->]]. cbn.
+    apply (mep_mutation_preserves pc x cands z n Hx Hs).
+  - left. destruct self_is_lhs; eapply mep_crossover_clear; exact Hs.
+  - inversion Hs. subst. apply cache_ok_keep_same; assumption.
+  - destruct parsed; inversion Hs; subst; [apply cache_ok_clear|exact Hx].
+  - inversion Hs. subst. exact Hop.
+  - contradiction.
+Qed.
+
+Definition mep_plain (x : mep) (o : mep_op) : Prop :=
+  match o with
+  | MAssign _ | MIterWrite _ _ => False
+  | MCse g' => hash_mep g' = hash_mep (content x)
+  | _ => True
+  end.
+Inductive mep_reach (pc : f64 -> f64 -> bool) : mep -> Prop :=
+| mr_init : forall g, mep_reach pc (clear g)              (* i_mep(problem), i_mep(vector<gene>) *)
+| mr_step : forall x o y, mep_reach pc x -> mep_plain x o -> mep_step pc x o = Some y -> mep_reach pc y.
+
+Lemma mep_reach_ok : forall pc x, mep_reach pc x -> cache_ok hash_mep x.
+Proof.
+  induction 1 as [g|x o y Hr IH Hp Hs]; [apply cache_ok_clear|].
+  apply (mep_step_preserves pc x o y IH); [|exact Hs]. destruct o; cbn in *; try contradiction; auto.
+Qed.
+
+Lemma mep_never_stale : forall pc x h x',
+  mep_reach pc x -> signature hash_mep x = Some (h, x') -> hash_mep (content x) = Some h.
+Proof. intros pc x h x' Hr Hs. apply mep_reach_ok in Hr. apply (signature_correct hash_mep x h x' Hr Hs). Qed.
+
+(* ================================================================== team *)
+Lemma hash_team_ext : forall ms ms', map (@content genome) ms = map (@content genome) ms' -> hash_team ms = hash_team ms'.
+Proof.
+  intros ms ms' H.
+  assert (E : map member_hash ms = map member_hash ms').
+  { assert (M : forall l : list mep, map member_hash l = map hash_mep (map (@content genome) l))
+      by (intro l; rewrite map_map; reflexivity).
+    rewrite (M ms), (M ms'), H. reflexivity. }
+  unfold hash_team. apply f_equal. apply f_equal. exact E.
+Qed.
+
+Lemma team_hash_run_spec : forall ms acc h ms',
+  Forall (cache_ok hash_mep) ms -> team_hash_run acc ms = Some (h, ms') ->
+  Forall (cache_ok hash_mep) ms' /\ map (@content genome) ms' = map (@content genome) ms /\
+  exists hs, all_some (map member_hash ms) = Some hs /\ h = fold_combine acc hs.
+Proof.
+  induction ms as [|m r IH]; intros acc h ms' Hall H; cbn [team_hash_run] in H.
+  - inversion H. subst. split; [constructor|]. split; [reflexivity|]. exists []. split; reflexivity.
+  - inversion Hall as [|? ? Hm Hr]. subst.
+    destruct (signature hash_mep m) as [[hm m']|] eqn:Es; [|discriminate].
+    destruct (team_hash_run (hcombine acc hm) r) as [[a r']|] eqn:Er; [|discriminate].
+    inversion H. subst.
+    apply (signature_correct hash_mep) in Es; [|exact Hm]. destruct Es as [Eh [Ec [_ Hok]]].
+    apply IH in Er; [|exact Hr]. destruct Er as [Hall' [Hc [hs [Hhs Hh]]]].
+    split; [constructor; assumption|]. split; [cbn [map]; rewrite Ec, Hc; reflexivity|].
+    exists (hm :: hs). cbn [map all_some]. unfold member_hash at 1. rewrite Eh, Hhs. split; [reflexivity|exact Hh].
+Qed.
+
+Lemma team_signature_correct : forall t h t',
+  team_ok t -> team_signature t = Some (h, t') ->
+  hash_team (content t) = Some h /\ map (@content genome) (content t') = map (@content genome) (content t) /\ team_ok t'.
+Proof.
+  intros t h t' [Hall Hc] H. unfold team_signature in H.
+  destruct (hempty (cache t)) eqn:Ee.
+  - destruct (team_hash_run hzero (content t)) as [[h0 ms']|] eqn:Er; [|discriminate].
+    inversion H. subst. apply team_hash_run_spec in Er; [|exact Hall].
+    destruct Er as [Hall' [Hcont [hs [Hhs Hh]]]].
+    assert (Eh : hash_team (content t) = Some h).
+    { unfold hash_team. rewrite Hhs. cbn. rewrite Hh. reflexivity. }
+    split; [exact Eh|]. split; [exact Hcont|]. split; [exact Hall'|].
+    right. cbn. rewrite (hash_team_ext ms' (content t) Hcont). exact Eh.
+  - inversion H. subst. destruct Hc as [Hz|Hh].
+    + apply hempty_true in Hz. congruence.
+    + split; [exact Hh|]. split; [reflexivity|]. split; [exact Hall|right; exact Hh].
+Qed.
+
+Lemma set_nth_spec : forall A (l : list A) i v l', set_nth l i v = Some l' ->
+  forall (P : A -> Prop) B (f : A -> B), Forall P l -> P v ->
+  (forall a, nth_error l i = Some a -> f v = f a) -> Forall P l' /\ map f l' = map f l.
+Proof.
+  induction l as [|a r IH]; intros i v l' H P B f Hall Hv Hf; [destruct i; discriminate|].
+  inversion Hall as [|? ? Ha Hr]. subst. destruct i as [|k]; cbn [set_nth] in H.
+  - inversion H. subst. split; [constructor; assumption|]. cbn. rewrite (Hf a eq_refl). reflexivity.
+  - apply option_map_some in H. destruct H as [r' [H ->]].
+    destruct (IH k v r' H P B f Hr Hv) as [H1 H2]; [intros b Hb; apply Hf; exact Hb|].
+    split; [constructor; assumption|cbn; rewrite H2; reflexivity].
+Qed.
+
+Lemma team_mutation_loop_spec : forall pc ms cands ms' nm,
+  Forall (cache_ok hash_mep) ms -> team_mutation_loop pc ms cands = Some (ms', nm) ->
+  Forall (cache_ok hash_mep) ms' /\ (nm = 0%nat -> map (@content genome) ms' = map (@content genome) ms).
+Proof.
+  induction ms as [|m r IH]; intros cands ms' nm Hall H; destruct cands as [|c cr]; cbn [team_mutation_loop] in H;
+    try discriminate.
+  - inversion H. subst. split; [constructor|reflexivity].
+  - inversion Hall as [|? ? Hm Hr]. subst.
+    destruct (mep_mutation pc m c) as [[m' n]|] eqn:Em; [|discriminate].
+    destruct (team_mutation_loop pc r cr) as [[r' k]|] eqn:Er; [|discriminate].
+    inversion H. subst. apply mep_mutation_preserves in Em; [|exact Hm]. destruct Em as [Hm' Hn].
+    apply IH in Er; [|exact Hr]. destruct Er as [Hr' Hk].
+    split; [constructor; assumption|]. intro Hz. assert (n = 0 /\ k = 0)%nat as [-> ->] by lia.
+    cbn [map]. rewrite (Hn eq_refl), (Hk eq_refl). reflexivity.
+Qed.
+
+Lemma team_crossover_loop_spec : forall lhs rhs ch ms,
+  team_crossover_loop lhs rhs ch = Some ms -> Forall (cache_ok hash_mep) ms.
+Proof.
+  induction lhs as [|a l IH]; intros rhs ch ms H; destruct rhs as [|b r]; destruct ch as [|[bb ls] c];
+    cbn [team_crossover_loop] in H; try discriminate.
+  - inversion H. constructor.
+  - destruct (mep_crossover a b bb ls) as [m|] eqn:Em; [|discriminate].
+    destruct (team_crossover_loop l r c) as [r'|] eqn:Er; [|discriminate].
+    inversion H. subst. constructor; [left; eapply mep_crossover_clear; exact Em|eapply IH; exact Er].
+Qed.
+
+Definition team_op_ok (P : team -> Prop) (o : team_op) : Prop :=
+  match o with TAssign y => P y | _ => True end.
+
+Lemma team_ok_keep : forall (t : team) ms', team_ok t -> Forall (cache_ok hash_mep) ms' ->
+  map (@content genome) ms' = map (@content genome) (content t) -> team_ok (keep t ms').
+Proof.
+  intros t ms' [_ Hc] Hall Hcont. split; [exact Hall|].
+  apply cache_ok_keep_same; [exact Hc|apply hash_team_ext; exact Hcont].
+Qed.
+
+Lemma team_step_preserves : forall pc t o t',
+  team_ok t -> team_op_ok team_ok o -> team_step pc t o = Some t' -> team_ok t'.
+Proof.
+  intros pc t o t' Ht Hop Hs. destruct o; cbn [team_step team_op_ok] in *.
+  - apply option_map_some in Hs. destruct Hs as [[h x'] [Hs ->]].
+    apply team_signature_correct in Hs; [|exact Ht]. cbn. tauto.
+  - destruct (nth_error (content t) j) as [m|] eqn:En; [|discriminate].
+    destruct (signature hash_mep m) as [[h m']|] eqn:Es; [|discriminate].
+    apply option_map_some in Hs. destruct Hs as [ms' [Hset ->]].
+    destruct Ht as [Hall Hc].
+    assert (Hm : cache_ok hash_mep m).
+    { rewrite Forall_forall in Hall. apply Hall. eapply nth_error_In; exact En. }
+    apply (signature_correct hash_mep) in Es; [|exact Hm]. destruct Es as [_ [Ec [_ Hok]]].
+    destruct (set_nth_spec _ _ _ _ _ Hset (cache_ok hash_mep) _ (@content genome) Hall Hok) as [H1 H2].
+    { intros a Ha. rewrite En in Ha. inversion Ha. subst. exact Ec. }
+    apply team_ok_keep; [split; assumption|exact H1|exact H2].
+  - destruct (team_mutation_loop pc (content t) cands) as [[ms' nm]|] eqn:El; [|discriminate].
+    destruct Ht as [Hall Hc]. apply team_mutation_loop_spec in El; [|exact Hall]. destruct El as [Hall' Hz].
+    inversion Hs. subst. destruct (Nat.eqb nm 0) eqn:En.
+    + apply Nat.eqb_eq in En. apply team_ok_keep; [split; assumption|exact Hall'|exact (Hz En)].
+    + split; [exact Hall'|apply cache_ok_clear].
+  - apply option_map_some in Hs. destruct Hs as [ms [Hs ->]].
+    split; [|apply cache_ok_clear]. cbn.
+    destruct self_is_lhs; eapply team_crossover_loop_spec; exact Hs.
+  - destruct parsed as [gs|]; inversion Hs; subst; [|exact Ht].
+    split; [|apply cache_ok_clear]. cbn. rewrite Forall_forall. intros m Hm.
+    apply in_map_iff in Hm. destruct Hm as [g [<- _]]. apply cache_ok_clear.
+  - inversion Hs. subst. exact Hop.
+Qed.
+
+Definition team_plain (o : team_op) : Prop := match o with TAssign _ => False | _ => True end.
+(* members handed to team(std::vector<T>) are themselves reachable individuals *)
+Inductive team_reach (pc : f64 -> f64 -> bool) : team -> Prop :=
+| tr_init : forall ms, Forall (mep_reach pc) ms -> team_reach pc (clear ms)
+| tr_step : forall t o t', team_reach pc t -> team_plain o -> team_step pc t o = Some t' -> team_reach pc t'.
+
+Lemma team_reach_ok : forall pc t, team_reach pc t -> team_ok t.
+Proof.
+  induction 1 as [ms Hms|t o t' Hr IH Hp Hs].
+  - split; [|apply cache_ok_clear]. cbn. rewrite Forall_forall in *. intros m Hm. apply (mep_reach_ok pc). apply Hms. exact Hm.
+  - apply (team_step_preserves pc t o t' IH); [|exact Hs]. destruct o; cbn in *; try contradiction; exact I.
+Qed.
+
+(* the team signature is the ordered fold of combine over the signatures of
+   the members' current contents *)
+Lemma team_signature_is_fold : forall pc t h t',
+  team_reach pc t -> team_signature t = Some (h, t') ->
+  exists hs, all_some (map member_hash (content t)) = Some hs /\
+             h = fold_combine hzero hs.
+Proof.
+  intros pc t h t' Hr Hs. apply team_reach_ok in Hr. apply team_signature_correct in Hs; [|exact Hr].
+  destruct Hs as [Hh _]. unfold hash_team in Hh.
+  destruct (all_some _) as [hs|]; [|discriminate]. cbn in Hh. inversion Hh. exists hs. split; reflexivity.
+Qed.
